@@ -17,7 +17,7 @@ import json
 
 import vlib
 
-CFG = 'SPECIFICATION Spec\nCONSTANTS\n  Mode = "%s"\nINVARIANTS EmitSigs EmitEnum TableSane EnumLaws\n'
+CFG = 'SPECIFICATION Spec\nCONSTANTS\n  Mode = "%s"\nINVARIANTS EmitSigs EmitEnum EmitEnumMap TableSane EnumLaws\n'
 
 
 def run(ck):
@@ -25,6 +25,7 @@ def run(ck):
     sigs = ck.tlc("StdlibSig", CFG % "sigs", workers=1, name="sigs", timeout=1200).tagged("SIG")
     en = ck.tlc("StdlibSig", CFG % "enum", workers=1, name="enum", timeout=1200)
     enum_cases = en.tagged("ENUM") + en.tagged("ENUMC")
+    map_cases = en.tagged("ENUMM")
     B = 150
     rounds = 3 if quick else 12
     batches = []
@@ -33,6 +34,7 @@ def run(ck):
             batches.append({"id": len(batches), "batch": sigs[k:k + B], "seed": ck.seed * 1000003 + len(batches), "vectors": 16 if quick else 60})
     res = vlib.run_cases(ck, "stdlibsig", batches, nproc=14, timeout=3000)
     ebatches = [{"id": i, "batch": enum_cases[k:k + 400]} for i, k in enumerate(range(0, len(enum_cases), 400))]
+    ebatches += [{"id": len(ebatches) + i, "maps": map_cases[k:k + 200]} for i, k in enumerate(range(0, len(map_cases), 200))]
     eres = vlib.run_cases(ck, "enumspec", ebatches, nproc=14, timeout=3000)
     stats, keycount, seen = {}, {}, set()
     for group, rr in ((batches, res), (ebatches, eres)):
@@ -57,7 +59,7 @@ def run(ck):
         raise vlib.Infra("functions of the specification without a reference: %s" % missing)
     ck.evaluations += sum(v for k, v in stats.items() if k.startswith("class:")) + stats.get("compared", 0)
     ck.traces += sum(v for k, v in stats.items() if k.startswith("class:"))
-    ck.extra.update({"call_obligations": len(sigs), "enum_cases": len(enum_cases), "functions": len({(c["mod"], c["fn"]) for c in sigs}), "stats": stats,
+    ck.extra.update({"call_obligations": len(sigs), "enum_cases": len(enum_cases), "enum_map_cases": len(map_cases), "functions": len({(c["mod"], c["fn"]) for c in sigs}), "stats": stats,
                      "mismatch_instances_by_key": keycount})
     for c in sigs[::7]:
         ck.note_distinct("%s.%s:%s:%s" % (c["mod"], c["fn"], ",".join(c["types"]), c["expect"]))
